@@ -155,6 +155,12 @@ def judge(ctx, groups, impl):
                 if plain_sub != plain:
                     bad(grp, 'reg %s plain(sub)' % t, '--no-color on the sub-command differs from --no-color given globally', {}, 'flag-position')
                 check_colours(ctx, grp, 'reg %s colour' % t, col, plain)
+            # the three register layouts colour the same figures the same way (a zero, of either sign, is uncoloured in all of them)
+            seqs = {t: [(m.group(1) or b'', m.group(2)) for m in re.finditer(rb'(?:\x1b\[(31|32)m)? *(' + NUM + rb')', o['reg %s colour' % t])] for t in ('default', 'old')}
+            if [x[1] for x in seqs['default']] == [x[1] for x in seqs['old']] and seqs['default'] != seqs['old']:
+                diff = [(a, b) for a, b in zip(seqs['default'], seqs['old']) if a != b][:3]
+                bad(grp, 'reg old colour', 'the old register reporter colours a figure differently from the default template: %r' % diff,
+                    {'default': o['reg default colour'].decode('utf-8', 'replace')[:800], 'old': o['reg old colour'].decode('utf-8', 'replace')[:800]}, 'colour-sign')
             if strip_ansi(o['summary colour']) != o['summary plain']:
                 bad(grp, 'summary colour', 'coloured summary minus escape codes differs from the plain summary', {}, 'colour-changes-text')
             check_colours(ctx, grp, 'summary colour', o['summary colour'], o['summary plain'])
